@@ -8,12 +8,14 @@ CONSTANTS
   MaxEnv = 7
   MaxRequeue = 1
   MaxOffers = 1
+  MaxSplit = 0
   SkipOccupied = TRUE
   CallbackOwnOnly = TRUE
   RemoveCancels = TRUE
   CycleSkipsLocked = TRUE
   OfferSkipsLocked = TRUE
   OfferSkipsOccupied = TRUE
+  StartRechecks = TRUE
 INVARIANT TypeOK
 INVARIANT AtMostOneNegotiation
 INVARIANT SlotsTrackLive
